@@ -172,6 +172,12 @@ static int process_op(
     else
   if (operand->operand == OPERAND_NUMBER && type == OP_NUM)
   {
+    if (operand->value < -128 || operand->value > 255)
+    {
+      print_error_range(asm_context, "Constant", -128, 255);
+      return -1;
+    }
+
     data[1] = operand->value;
     return 2;
   }
@@ -180,7 +186,7 @@ static int process_op(
   {
     int address = operand->value;
 
-    if (address > 8191)
+    if (address < 0 || address > 8191)
     {
       print_error_range(asm_context, "Address", 0, 8191);
       return -1;
